@@ -1920,23 +1920,19 @@ class unyt_array(np.ndarray):
                 u1 = Unit(registry=getattr(u0, "registry", None))
             elif ufunc is power:
                 u1 = inp1
-                if inp0.shape == () or inp1.shape == ():
+                if inp1.shape == ():
                     if isinstance(u1, unyt_array) and not u1.units.is_dimensionless:
                         raise UnitOperationError(ufunc, u0, u1.units)
-                    if u1.shape == ():
-                        u1 = float(u1)
-                    else:
-                        u1 = 1.0
-                elif inp0.shape == inp1.shape:
+                    u1 = float(u1)
+                elif inp0.shape == () or inp0.shape == inp1.shape:
                     if isinstance(u1, unyt_array) and not u1.units.is_dimensionless:
                         raise UnitOperationError(ufunc, u0, getattr(u1, "units", None))
 
-                    if (
-                        (isinstance(u0, Unit) and not u0.is_dimensionless)
-                        or isinstance(u0, unyt_array)
-                        and not u0.units.is_dimensionless
-                    ):
-                        # u0 has units
+                    base_unit = getattr(u0, "units", u0)
+                    if not (base_unit.is_dimensionless and base_unit.base_value == 1):
+                        # u0 has units (or is a scaled pure number such as
+                        # percent): one unit can label the result only if
+                        # all exponents are the same
                         if np.ptp(u1) != 0:
                             raise UnitOperationError(
                                 ufunc, u0, getattr(u1, "units", None)
